@@ -205,8 +205,8 @@ def run_case(case):
 def cases(tier):
     quick = tier == "quick"
     for case in runcases.step_cases(tier):
-        if quick and P.size(case[0][0]) > 3:
-            continue
+        if P.size(case[0][0]) > (3 if quick else 5):
+            continue        # thorough: shapes with <= 5 step positions (the full enumeration is C01's/C03's job)
         yield case
     for case in runcases.fault_cases(tier):
         if quick and (P.size(case[0][0]) > 2):
@@ -236,7 +236,7 @@ def empty_container_cases(tier):
 
 
 def run(ctx):
-    ctx.bounds = {"runs": "C01 enumeration" + (" restricted to shapes with <=3 step positions (faults: <=2)" if ctx.quick else ""),
+    ctx.bounds = {"runs": "C01 enumeration restricted to shapes with " + ("<=3 step positions (faults: <=2)" if ctx.quick else "<=5 step positions (all fault cases)"),
                   "implementations": 3, "formats": 5}
     ctx.sweep(run_case, cases(ctx.tier), chunk=32, name="runs x (reporter + walked collector) x 5 formats")
     ctx.sweep(run_case, empty_container_cases(ctx.tier), chunk=32, name="childless containers with siblings")
